@@ -324,6 +324,21 @@ func (c *FnCtx) specCall(env *Env, x *ast.CallExpr) Val {
 				fn = fmt.Sprintf("wrapS%d", bits)
 			}
 			return Val{T: app(fn, e.T), Typ: v.Typ}
+		case "allocated":
+			// allocated(a): the address lies below the allocation frontier of the current state
+			// (every pointer a Go program holds does)
+			p := c.eval(env, x.Args[0])
+			return boolVal(app("<", p.T, env.st.alloc))
+		case "live":
+			// live(p): p is the base address of an allocated object of p's static pointee type
+			p := c.eval(env, x.Args[0])
+			pt, isP := c.subst(p.Typ).Underlying().(*types.Pointer)
+			if !isP {
+				c.unsup(x, "live() of a non-pointer")
+				return Val{}
+			}
+			c.useObjTy()
+			return boolVal(and(app(">", p.T, "0"), app("<", p.T, env.st.alloc), eq(app("objty", p.T), c.typeTag(pt.Elem()))))
 		case "Z":
 			v := c.eval(env, x.Args[0])
 			return mathInt(v.T)
